@@ -14,6 +14,18 @@ CORE = [M + "/ptrify", M + "/common", "strings", "unicode/utf8", "strconv", "go/
 
 CHECKS = {
     "SMOKE": {"runs": [{"entry": M + ".HarnessL1Smoke", "pkgs": CORE, "must_reach": ["smoke-end"]}]},
+    "C04": {"runs": [
+        {"entry": M + ".HarnessC04Quick", "pkgs": CORE, "must_reach": ["c04-end", "c04-config-rejected"], "instrument": [M], "validate": 0},
+        {"entry": M + ".HarnessC04NonBlocking", "pkgs": CORE, "must_reach": ["c04-end"], "instrument": [M], "validate": 0},
+    ]},
+    "C06": {"runs": [
+        {"entry": M + ".HarnessC06Quick", "pkgs": CORE, "must_reach": ["c06-end"], "instrument": [M], "validate": 0},
+        {"entry": M + ".HarnessC06Unregister", "pkgs": CORE, "must_reach": ["c06-end"], "instrument": [M], "validate": 0},
+    ]},
+    "C07": {"runs": [
+        {"entry": M + ".HarnessC07Quick", "pkgs": CORE, "must_reach": ["c07-end"], "instrument": [M], "validate": 0},
+        {"entry": M + ".HarnessC07Second", "pkgs": CORE, "must_reach": ["c07-end"], "instrument": [M], "validate": 0},
+    ]},
     "C05": {"runs": [
         {"entry": M + ".HarnessC05Quick", "pkgs": CORE, "must_reach": ["c05-end"], "instrument": [M], "validate": 0},
         {"entry": M + ".HarnessC05Seq", "pkgs": CORE, "must_reach": ["c05-end"], "instrument": [M], "validate": 0},
